@@ -612,7 +612,7 @@ class Parser():
         label = self._accept(lexer.TokLabel)
         if label is not None:
             # Remove colons from label.
-            label_name = label.value[2:-2]
+            label_name = label.value[2:-2].strip()
             return StatLabel(label_name, start=pos, end=self._pos)
 
         self._pos = pos
